@@ -237,6 +237,34 @@ func GenSpec(t *rapid.T, o Opts) *Spec {
 			m.Rules = append(m.Rules, r)
 		}
 	}
+	// now and then every rule of a mode starts with the same loop (body of one to three symbols): after
+	// minimisation the start state is then re-entered in the middle of a token
+	for _, m := range s.Modes {
+		if ri(t, 0, 24, "commonloop") != 0 {
+			continue
+		}
+		body := &Expr{Kind: "seq"}
+		for i, n := 0, ri(t, 1, 3, "looplen"); i < n; i++ {
+			if rapid.Bool().Draw(t, "loopcls") {
+				body.Kids = append(body.Kids, genClass(t, g))
+			} else {
+				body.Kids = append(body.Kids, genLit(t, g))
+			}
+		}
+		var loop *Expr
+		if len(body.Kids) == 1 {
+			loop = &Expr{Kind: "star", Kids: []*Expr{body.Kids[0]}}
+		} else {
+			loop = &Expr{Kind: "star", Kids: []*Expr{body}}
+		}
+		for _, r := range m.Rules {
+			tail := r.E
+			if eng.Nullable(s, tail) {
+				tail = &Expr{Kind: "seq", Kids: []*Expr{tail, genLit(t, g)}}
+			}
+			r.E = &Expr{Kind: "seq", Kids: []*Expr{loop, tail}}
+		}
+	}
 	if o.BigPct > 0 && ri(t, 0, 99, "bigspec") < o.BigPct {
 		seen := map[string]bool{}
 		letters := []rune("abcdef")
